@@ -104,6 +104,19 @@ def real_stamp(s):
     return ("ok", (str(t.data), str(t.children[0])))
 
 
+def real_stamp_via_mapping(s, where="space"):
+    """the same question asked through Mapping.from_str: the stamp written (quoted, so that YAML keeps it verbatim) in the
+    space or time list of a mapping"""
+    from teaal.parse import Mapping
+    other = "time" if where == "space" else "space"
+    y = 'mapping:\n  spacetime:\n    Z:\n      %s:\n      - "%s"\n      %s: []\n' % (where, s, other)
+    try:
+        t = Mapping.from_str(y).get_spacetime()["Z"][where][0]
+        return ("ok", (str(t.data), str(t.children[0])))
+    except Exception:      # noqa
+        return REJECT
+
+
 def read_level(s):
     m = _full("(" + NAME + ")" + W + r"(?:\[0\.\." + W + "(" + NUMBER + ")" + W + r"\])?", s)
     if not m:
